@@ -57,17 +57,22 @@ def oracle(dialect, text, info=None):
     try:
         t2 = parse(dialect, s)
     except Exception as e:
-        return dict(kind='reparse-fail', exc=type(e).__name__, msg=str(e)[:160], printed=s, tree=t)
+        return dict(kind='reparse-fail', exc=type(e).__name__, msg=str(e)[:160], printed=s, tree=t, at=caret_token(str(e)))
     if t2 is None:
         return dict(kind='reparse-fail', exc='None', msg='', printed=s, tree=t)
     try:
         tr2 = t2.to_tree()
         s2 = t2.to_string()
         st2 = str(t2)
+        hr, hr2 = holder_records(t), holder_records(t2)
     except Exception as e:
         return dict(kind='print-crash', exc=type(e).__name__, msg='second print: ' + str(e)[:100], printed=s, tree=t)
     if tr2 != tr:
         return dict(kind='tree-differs', exc='', printed=s, printed2=s2, tree=t, tree1=tr, tree2=tr2)
+    if hr2 != hr:
+        return dict(kind='tree-differs', exc='columns', printed=s, printed2=s2, tree=t, tree1=tr, tree2=tr2,
+                    msg='column definitions differ: %s' % [(a, b) for a, b in zip(hr, hr2) if a != b][:2].__repr__()[:400] if len(hr) == len(hr2)
+                    else 'column definitions differ: %d columns, then %d' % (len(hr), len(hr2)))
     if s2 != s or st2 != st:
         return dict(kind='print-unstable', exc='', printed=s, printed2=s2, tree=t)
     try:
@@ -77,7 +82,36 @@ def oracle(dialect, text, info=None):
         return dict(kind='copy-crash', exc=type(e).__name__, msg=str(e)[:120], printed=s, tree=t)
     if cs != s or ct != tr:
         return dict(kind='copy-differs', exc='', printed=s, printed2=cs, tree=t)
+    if holder_records(c) != hr:
+        return dict(kind='copy-differs', exc='columns', printed=s, printed2=cs, tree=t)
     return 'ok'
+
+
+def caret_token(msg):
+    """the word of the printed text at which the parser gave up (`>text` / `---^` lines of the error message): the symptom
+    a shrunk input has to keep when the unconstrained shrink drifted into a known finding of the same kind"""
+    lines = msg.split('\n')
+    for i, l in enumerate(lines[:-1]):
+        m = re.fullmatch(r'(-*)\^+', lines[i + 1] or '')
+        if l.startswith('>') and m:
+            rest = l[len(m.group(1)):].split()       # `>` takes column 0, the dashes count the columns before the word
+            return rest[0].upper() if rest else '<end>'
+    return None
+
+
+def holder_records(tree):
+    """attributes of the data holders of a tree that have no to_tree() of their own and that their owner's to_tree() shows
+    only in part: TableColumn (CreateTable.to_tree prints `name: type` only — length, DEFAULT, NULL / NOT NULL and the
+    primary key are invisible to the to_tree / str comparison, and a printer that drops them prints stably)"""
+    out = []
+    for n, _, _ in walk_nodes(tree):
+        for k, v in sorted(vars(n).items()):
+            if isinstance(v, list):
+                for y in v:
+                    if type(y).__name__ == 'TableColumn':
+                        out.append((type(n).__name__, k) + tuple((a, repr(getattr(y, a, None)) if not hasattr(getattr(y, a, None), 'to_tree')
+                                                                   else getattr(y, a).to_tree()) for a in sorted(vars(y))))
+    return out
 
 
 def kind_of(r):
@@ -97,6 +131,10 @@ FEATURES = {
     'ident-reserved': 'an identifier part is a plain word that parts_to_str back-quotes (reserved word)',
     'col-quoted': 'a column name held as a plain string (INSERT column list, CREATE TABLE column) is not a plain word or is a reserved word',
     'col-nonstr': 'a column of an INSERT column list / CREATE TABLE is not a name at all (constant, expression)',
+    'col-default': 'a column definition has a DEFAULT',
+    'col-length': 'a column definition has a type with a length',
+    'col-pk': 'a column definition is (part of) the primary key',
+    'col-null': 'a column definition says NULL / NOT NULL',
     'nested-stmt': 'a non-query statement is nested inside the statement (the grammars let `( statement )` stand for a table / sub-query)',
     'setop-nested': 'a UNION / INTERSECT / EXCEPT node that is not the root (parenthesised set operation as sub-query or operand)',
     'setop-right-nested': 'the right operand of a set operation is itself a set operation (was written in parentheses)',
@@ -271,6 +309,14 @@ def features(dialect, text, tree, printed):
                             fs.add('col-nonstr')
                         elif not WORD.fullmatch(nm) or nm.upper() in res:
                             fs.add('col-quoted')
+                        if getattr(y, 'default', None) is not None:
+                            fs.add('col-default')
+                        if getattr(y, 'length', None) is not None:
+                            fs.add('col-length')
+                        if getattr(y, 'is_primary_key', False):
+                            fs.add('col-pk')
+                        if getattr(y, 'nullable', None) is not None:
+                            fs.add('col-null')
         for k, v in vars(n).items():
             if isinstance(v, dict):
                 for key in v:
@@ -350,7 +396,8 @@ class Shrinker:
     """token-level delta debugging: chunk deletion, collapse of parenthesised groups, sliding-window
     deletion, replacement of every token by a simple identifier / number; keeps (kind, exc)"""
 
-    def __init__(self, dialect, budget=1500):
+    def __init__(self, dialect, budget=1500, at=None):
+        self.at = at          # optional: the re-parse must fail at the same word of the printed text
         self.d = dialect
         self.budget = budget
         self.tests = 0
@@ -362,7 +409,7 @@ class Shrinker:
             return self.seen[key]
         self.tests += 1
         r = oracle(self.d, key)
-        ok = r is not None and r != 'ok' and (r['kind'], r['exc']) == want
+        ok = r is not None and r != 'ok' and (r['kind'], r['exc']) == want and (self.at is None or r.get('at') == self.at)
         self.seen[key] = ok
         return ok
 
@@ -478,19 +525,19 @@ def describe(dialect, text, small, r2, tests=0):
     printed = r2.get('printed')
     fs = sorted(features(dialect, small, tree, printed))
     out = dict(kind=r2['kind'], exc=r2['exc'], root=type(tree).__name__, feats=fs, attrs=root_attrs(tree), dialect=dialect,
-               text=text, shrunk=small, printed=printed, printed2=r2.get('printed2'), msg=r2.get('msg'), tests=tests)
+               text=text, shrunk=small, printed=printed, printed2=r2.get('printed2'), msg=r2.get('msg'), tests=tests, at=r2.get('at'))
     out['cls'] = class_key(out)
     return out
 
 
-def classify(dialect, text, r=None, budget=1500):
+def classify(dialect, text, r=None, budget=1500, at=None):
     """shrink a failing input and compute its class: dict(kind, exc, root, feats, attrs, cls, text, shrunk, ...)"""
     if r is None:
         r = oracle(dialect, text)
     if r is None or r == 'ok':
         return None
     want = (r['kind'], r['exc'])
-    sh = Shrinker(dialect, budget)
+    sh = Shrinker(dialect, budget, at)
     small = sh.shrink(text, want)
     r2 = oracle(dialect, small)
     if r2 is None or r2 == 'ok' or (r2['kind'], r2['exc']) != want:
